@@ -170,6 +170,12 @@ void Stats::processMsg(int sockfd) {
       OLOG << "Stats server error: closing file descriptor: "
            << ::strerror_r(errno, err_buf.data(), err_buf.size());
     }
+    // Every way out of the handler (including read errors and timeouts) must
+    // give its slot back, or the destructor waits for a thread that is gone.
+    std::unique_lock<std::mutex> lock(thread_mutex_);
+    thread_count_--;
+    OOMD_VERIF_POINT("stats.handler.end", sockfd, thread_count_.load());
+    thread_exited_.notify_one();
   };
   char mode = 'a';
   char byte_buf;
@@ -233,11 +239,6 @@ void Stats::processMsg(int sockfd) {
     out += n;
     left -= n;
   }
-  std::unique_lock<std::mutex> lock(thread_mutex_);
-  thread_count_--;
-  OOMD_VERIF_POINT("stats.handler.end", sockfd, thread_count_.load());
-  lock.unlock();
-  thread_exited_.notify_one();
 }
 
 std::unordered_map<std::string, int> Stats::getAll() {
